@@ -22,6 +22,7 @@ type byzActor struct {
 	ids   []int
 	props []heardProp
 	done  map[string]bool // one reaction per (slot, height, round, kind)
+	prevotes map[int64][]*types.Vote // honest non-nil prevotes heard, per (recent) height
 	style int             // 0 amplify+split, 1 mostly silent, 2 chaotic
 }
 
@@ -95,6 +96,91 @@ func (b *byzActor) observeVote(v *types.Vote) {
 	if len(b.s.heardVotes) < 400 {
 		b.s.heardVotes = append(b.s.heardVotes, v)
 	}
+	if len(b.ids) > 0 && v.Type == types.PrevoteType && !v.BlockID.IsZero() {
+		if b.prevotes == nil {
+			b.prevotes = map[int64][]*types.Vote{}
+		}
+		if len(b.prevotes[v.Height]) < 200 {
+			b.prevotes[v.Height] = append(b.prevotes[v.Height], v)
+		}
+		delete(b.prevotes, v.Height-2)
+	}
+}
+
+// onLock: an honest node just locked block B in round r. If, with the byzantine validators' help, an
+// EARLIER round r' < r of this height has +2/3 prevotes for another block A, hand that stale polka to the
+// locked node (replayed honest prevotes + fresh byzantine ones). A correct node keeps its lock.
+func (b *byzActor) onLock(n *node, hrs cstypes.HRS) {
+	if !b.active() || b.style == 1 || !b.once("stale", n.id, hrs.Height, hrs.Round) {
+		return
+	}
+	s := b.s
+	rs := n.cs.GetRoundState()
+	if rs.Height != hrs.Height || rs.LockedBlock == nil {
+		return
+	}
+	locked := rs.LockedBlock.Hash()
+	var bp int64
+	for _, slot := range b.ids {
+		if _, v := rs.Validators.GetByAddress(s.slots[slot].key.PubKey().Address()); v != nil {
+			bp += v.VotingPower
+		}
+	}
+	type grp struct {
+		id    types.BlockID
+		votes []*types.Vote
+		pw    int64
+	}
+	groups := map[string]*grp{}
+	var keys []string
+	for _, v := range b.prevotes[hrs.Height] {
+		if v.Round >= hrs.Round || string(v.BlockID.Hash) == string(locked) {
+			continue
+		}
+		if sl := s.slotByAddr(v.ValidatorAddress); sl == nil || sl.byz {
+			continue
+		}
+		k := fmt.Sprintf("%03d/%x", v.Round, v.BlockID.Hash)
+		g := groups[k]
+		if g == nil {
+			g = &grp{id: v.BlockID}
+			groups[k] = g
+			keys = append(keys, k)
+		}
+		dup := false
+		for _, o := range g.votes {
+			if o.ValidatorIndex == v.ValidatorIndex {
+				dup = true
+			}
+		}
+		if !dup {
+			_, val := rs.Validators.GetByIndex(v.ValidatorIndex)
+			if val != nil {
+				g.votes = append(g.votes, v)
+				g.pw += val.VotingPower
+			}
+		}
+	}
+	sortStrings(keys)
+	for i := len(keys) - 1; i >= 0; i-- { // latest round first
+		g := groups[keys[i]]
+		if !(3*(g.pw+bp) > 2*rs.Validators.TotalVotingPower()) {
+			continue
+		}
+		r := g.votes[0].Round
+		s.r.Fault("byz_stale_polka_to_locked_node")
+		s.event("byz hands n%d a stale polka %d/%d %s (locked %s at round %d)", n.id, hrs.Height, r, short(g.id.Hash), short(locked), hrs.Round)
+		from := b.ids[0]
+		for _, v := range g.votes {
+			s.net.send(from, n, &netMsg{msg: &cons.VoteMessage{Vote: v}, desc: "replay " + voteDesc(v)})
+		}
+		for _, slot := range b.ids {
+			if pv := b.signVote(slot, rs.Validators, types.PrevoteType, hrs.Height, r, g.id, tmtime.Now()); pv != nil {
+				b.sendVote(slot, n, pv, "")
+			}
+		}
+		return
+	}
 }
 
 // observeProposal: an honest proposal went on the wire. Style 0 amplifies it: prevote for it to
@@ -132,7 +218,12 @@ func (b *byzActor) observeProposal(pr *types.Proposal, parts []*types.Part) {
 			b.sendVote(slot, n, pv, "")
 		}
 		pc := b.signVote(slot, rs.Validators, types.PrecommitType, pr.Height, pr.Round, pr.BlockID, now.Add(time.Millisecond))
-		sub := b.subset()
+		var sub []*node
+		if s.c.Bool() { // exactly one node gets the precommit: it tends to commit alone
+			sub = []*node{s.nodes[s.c.Intn(len(s.nodes))]}
+		} else {
+			sub = b.subset()
+		}
 		for _, n := range sub {
 			// a little later, so that it tends to arrive after the prevotes
 			m := &netMsg{msg: &cons.VoteMessage{Vote: pc}, desc: "byz " + voteDesc(pc)}
